@@ -552,6 +552,13 @@ def classify_callee(F, e: Event) -> Tuple[str, str]:
     return ('unknown', show(f))
 
 
+# methods Python calls without a call being written: construction, context management, container / callable protocol and the
+# text of an exception.  (__repr__ / __eq__ / __hash__ of helper classes are debugging aids no evaluation step invokes.)
+IMPLICIT_PROTOCOL = {'__init__', '__new__', '__post_init__', '__enter__', '__exit__', '__getitem__', '__setitem__', '__delitem__',
+                     '__contains__', '__iter__', '__next__', '__len__', '__bool__', '__call__', '__str__', '__missing__', '__del__',
+                     '__init_subclass__', '__set_name__', '__getattr__', '__getattribute__', '__setattr__'}
+
+
 def _r4(chk: Check, R4: str) -> None:
     F = chk.facts
     todo = list(entry_units(chk))
@@ -576,7 +583,7 @@ def _r4(chk: Check, R4: str) -> None:
                     for cq in F.mro(e_.resolved):
                         if cq in F.classes:
                             for mn in F.cls(cq).methods:
-                                if mn.startswith('__') and (cq + '.' + mn) in F.functions and (cq + '.' + mn) not in done:
+                                if mn in IMPLICIT_PROTOCOL and (cq + '.' + mn) in F.functions and (cq + '.' + mn) not in done:
                                     todo.append((cq + '.' + mn, F.func(cq + '.' + mn), None))
                 elif e_.resolved and e_.resolved in F.functions and not e_.d.get('inlined') and e_.resolved not in done:
                     todo.append((e_.resolved, F.func(e_.resolved), None))
